@@ -457,6 +457,9 @@ def main(mod, prop, tier, seed, replay=None):
         c = cases[idx]
         model = mism[idx]
         diff = p_diff(c, model)
+        refine = getattr(mod, "refine_diff", None)
+        if refine is not None:
+            diff = refine(c, model, diff)
         if any(n.startswith("P:") for n in diff) and len(violations) < 1 and not replay \
                 and match_known(prop, c, known, mod) is None:
             c, model = minimise(ctx, mod, c, model)
@@ -496,7 +499,7 @@ def main(mod, prop, tier, seed, replay=None):
         if key in seen_v:
             continue
         seen_v.add(key)
-        if len(seen_v) > 5:
+        if len(seen_v) > int(os.environ.get("VERIF_MAXVIOL", "5")):
             break
         path = write_replay(prop, payload)
         lines.append("VIOLATION property=%s replay=%s" % (prop, path))
